@@ -162,6 +162,18 @@ def propagate (nbrs : List (List Nat)) (F : List Face) : PState :=
 /-- `self._simplices[:, ::-1]` / `self._faces[i][::-1]` for all i -/
 def reverseAll (F : List Face) : List Face := F.map List.reverse
 
+/-- every face index is visited by the traversal, i.e. the neighbour graph is connected
+    (`StructLemmas.visited_iff_reach`); evaluated by the driver on every instance -/
+def visitsAll (nbrs : List (List Nat)) (F : List Face) : Bool :=
+  (List.range F.length).all fun k => (propagate nbrs F).visited.contains k
+
+/-- every listed neighbour pair consists of two different faces that share an edge: true by
+    construction for `_find_neighbors` (`neighbors_iff_shared_edge`), a checked contract for
+    Qhull's `hull.neighbors` -/
+def nbrsShareB (nbrs : List (List Nat)) (F : List Face) : Bool :=
+  (List.range nbrs.length).all fun u => (nbrs.getD u []).all fun v =>
+    u != v && !(commonEdges (F.getD u []) (F.getD v [])).isEmpty
+
 section geometric
 variable {α : Type} [Scalar α]
 open Scalar
@@ -267,6 +279,17 @@ def findEquations (verts : List (V3 α)) (F : List Face) : List (Eqn α) :=
     Poly3.faceEquation (verts.getD (f.getD 0 0) V3.zero) (verts.getD (f.getD 1 0) V3.zero)
       (verts.getD (f.getD 2 0) V3.zero)
 
+/-- `ConvexPolyhedron._find_simplex_equations` for one simplex `a b c`:
+    `n = cross(b - a, c - a)`, `n /= |n|`, `d = -n·a` -/
+def simplexEquation (t : Tri α) : Eqn α :=
+  let n := V3.cross (t.b - t.a) (t.c - t.a)
+  let nu := V3.sdiv n (V3.norm n)
+  (nu, -(V3.dot nu t.a))
+
+/-- `_find_simplex_equations` -/
+def simplexEquations (verts : List (V3 α)) (S : List Face) : List (Eqn α) :=
+  S.map fun s => simplexEquation (triOf verts s)
+
 /-- `get_dihedral(a, b)`: `arccos(dot(-n_a, n_b))`, `ValueError` when `b` is not a neighbour of `a` -/
 def getDihedral (nbrs : List (List Nat)) (normals : List (V3 α)) (a b : Nat) : Except String α :=
   if (nbrs.getD a []).contains b then
@@ -345,6 +368,12 @@ def faceAreaOf (verts : List (V3 α)) (cyc : Face) : α :=
   let vs := cyc.map fun i => verts.getD i V3.zero
   let n := (Poly3.faceEquation (vs.getD 0 V3.zero) (vs.getD 1 V3.zero) (vs.getD 2 V3.zero)).1
   Poly2.area vs n
+
+/-- `Polyhedron.__init__`: `faces_are_convex=None` means "all faces are triangles" -/
+def initFacesAreConvex (given : Option Bool) (faces : List Face) : Bool :=
+  match given with
+  | some b => b
+  | none => faces.all fun f => f.length == 3
 
 /-- complete `Polyhedron.sort_faces`: `ValueError` unless `faces_are_convex`, per-face reorder,
     then `polySortFacesCore` with the faces' areas -/
